@@ -30,6 +30,39 @@ class Script:
         pass
     def randint(self, a, b):
         return a
+    def Random(self, *a):
+        # a generator object created by the code under test (random.Random(seed)) is the same scripted source: the oracle does not depend on whether
+        # the tool draws from the module-level generator or from one of its own
+        return self
+    def uniform(self, a, b):
+        return a + (b - a) * self.random()
+    def getstate(self):
+        return None
+    def setstate(self, st):
+        pass
+
+class scripted:
+    """While active, every generator object of the standard random module in this process (the hidden module-level one, and any random.Random the code
+    under test created for itself, whenever it created it) answers random() / choice() from the script.  Only wrapped around single calls into the tool."""
+    def __init__(self, script):
+        self.script = script
+    def __enter__(self):
+        import random as R
+        self.R = R
+        self.saved_mod = (R.random, R.choice)
+        self.had = {n: R.Random.__dict__.get(n) for n in ('random', 'choice')}
+        sc = self.script
+        R.random, R.choice = sc.random, sc.choice
+        R.Random.random = lambda self_: sc.random()
+        R.Random.choice = lambda self_, seq: sc.choice(seq)
+    def __exit__(self, *a):
+        R = self.R
+        R.random, R.choice = self.saved_mod
+        for n, v in self.had.items():
+            if v is None:
+                delattr(R.Random, n)
+            else:
+                setattr(R.Random, n, v)
 
 def regions(weights):
     """Exact partition of [0,1) by normalised cumulative weights: list of (lo, hi) Fractions; draw u selects i iff lo < u <= hi (u=0 selects the first with hi >= 0)."""
@@ -105,18 +138,23 @@ def check_case(run, case):
         lang = oracles.Language(disk, skip_brute=sb)
         if not lang.base:
             run.inconc('no base structure'); return
-        pcfg = monitors.load_pcfg(path, 'x', skip_brute=sb)
         import lib_guesser.pcfg_grammar as pg
         script = Script()
         real_random = pg.random
-        pg.random = script
+        pg.random = script           # installed before the grammar is loaded, so a generator the grammar creates for itself is scripted too
+        try:
+            pcfg = monitors.load_pcfg(path, 'x', skip_brute=sb)
+        except BaseException:
+            pg.random = real_random
+            raise
         try:
             base_regs = regions([b[2] for b in lang.base])
             def pos_regs(label):
                 return regions([Fraction(p) * len(vals) for p, vals in lang.groups[label]])
             def walk(floats):
                 script.floats = list(floats); script.choices = []
-                return pcfg.random_walk()
+                with scripted(script):
+                    return pcfg.random_walk()
             def mid(regs, i):
                 lo, hi = regs[i]
                 return float((lo + hi) / 2)
@@ -162,7 +200,8 @@ def check_case(run, case):
                     lines, n = [], None
                     pcfg.print_guess = lines.append
                     try:
-                        n = pcfg.create_guesses(pt, is_honeyword=True)
+                        with scripted(script):
+                            n = pcfg.create_guesses(pt, is_honeyword=True)
                     finally:
                         del pcfg.print_guess
                     run.ev('honeyword_expansions')
